@@ -1,8 +1,15 @@
 //! C20 driver: the thirteen real layers, alone and stacked, against
-//!   mode 1: a strict, contract-checking wrapped service (readiness protocol),
+//!   mode 1: a strict, contract-checking wrapped service (readiness protocol), one long-lived handle,
+//!           one request after the other,
+//!   mode 3: the same service under a client PROGRAM: several handles (clones of the top of the stack),
+//!           overlapping requests (calls of the wrapped service held until released by the script),
+//!           futures left un-polled, layers AT their gate (bulkhead full, adaptive limiter at its limit),
 //!   mode 0: a scripted wrapped service, directly or behind tower's Buffer / ConcurrencyLimit
 //!           (transparency of non-triggering configurations),
-//!   mode 2: the same layer with well-behaved and with panicking listeners (listeners only observe).
+//!   mode 2: one layer in a TRIGGERING configuration with well-behaved and with panicking listeners
+//!           (listeners only observe), compared with a reference run of the same binary,
+//!   mode 4: stacks in non-triggering configurations with listeners on every layer that has a listener
+//!           API: outcome and ABSOLUTE per-layer / per-listener / per-event-kind counts.
 //!
 //! Real layer ids: 0 bulkhead, 1 ratelimiter, 2 circuitbreaker, 3 retry, 4 timelimiter (cancel mode),
 //! 5 cache, 6 fallback, 7 hedge, 8 reconnect, 9 adaptive, 10 coalesce, 11 executor, 12 chaos,
@@ -14,17 +21,40 @@
 //! 17 the same for circuitbreaker.with_fallback,
 //! 18 circuitbreaker that is Open whenever the client polls it ready and is closed with force_closed()
 //!    between the client's poll_ready and call (re-opened with force_open() after every request),
-//! 19 the same for circuitbreaker.with_fallback, closed with reset().
+//! 19 the same for circuitbreaker.with_fallback, closed with reset(),
+//! 20 hedge in LATENCY mode (delay 1 ms; in modes 1 / 3 every call of the strict service then takes 10 ms, so
+//!    that all k hedges fire, one per millisecond, through the timer branch of execute_with_hedging),
+//! 21 bulkhead AT ITS GATE: max_concurrent_calls 1, max_wait_duration 1 s (a second request queues for the
+//!    permit while the first is held),
+//! 22 rate limiter AT ITS GATE: 1 permit per 10 ms window, timeout 30 ms (the second request of a window
+//!    waits for the next window inside its future),
+//! 23 adaptive limiter AT ITS GATE: AIMD with initial = min = max limit 1 (poll_ready answers Pending
+//!    without polling the inner service while a call is in flight).
 //!
-//! mode 1: [1; n; layer ids (outermost first); k; nreq; oracle entries (0 Ready 1 Pending 2 Err)...]
-//!   -> per request a code (0 called, 1 readiness error at poll_ready, 2 readiness error inside the
-//!      call, 3 never ready; 7 panic, 9 hang: never produced by the model), the strict service's
-//!      poll/call log with instances renamed by first use ([1; inst; r] / [2; inst; ok]), [violations]
+//! mode 1: [1; n; layer ids (outermost first); k; nreq; shared oracle entries (0 Ready 1 Pending 2 Err)...]
+//!   -> per request a code (0 called and answered Ok(10 * request), 1 readiness error at poll_ready in
+//!      pass-through wrapping of all n layers, 2 the same inside the call, 3 never ready; never produced by
+//!      the model: 4 poll_ready failed with anything else, 5 a readiness error in the wrong wrapping inside
+//!      the call, 6 any other outcome, 7 panic, 9 hang), then the strict service's log with instances
+//!      renamed by first use ([1; inst; r; 0] poll / [2; inst; was-ready; request] call), [violations]
+//! mode 3: [3; n; layer ids; k; nops; (opcode; a; b) * nops; per-instance oracle: entries of the instance
+//!      used first, -1, entries of the instance used second, -1, ...]
+//!      opcodes: 0 poll handle a until Ready (8 Pending answers at most) / 1 call on handle a, b = 1: the
+//!      wrapped service's calls for this request are HELD until released / 2 clone handle a /
+//!      3 release request a / 4 one poll_ready on handle a whose layer's gate is closed /
+//!      5 call on handle a, the future is left un-polled / 6 drive the future of request a
+//!   -> one code per operation (poll: 0 1 3 4 7 as above; call, clone: 0 done, 8 refused (handle unknown or
+//!      not polled ready); gate: 3 Pending, 0 Ready, 1 error; others 0), one outcome code per issued
+//!      request (as in mode 1; every held call is released at the end of the script), log, [violations]
 //! mode 0: [0; n; layer ids; inner kind (0 direct, 1 Buffer, 2 ConcurrencyLimit(2)); nreq; (req; okind; oval)*]
 //!   -> per request [inner calls; request seen; 0 Ok / 1 inner error wrapped in pass-through variants
 //!      only / 2 anything else; payload]
 //! mode 2: [2; layer id; nlisteners; panic mask; nreq; okind*]
-//!   -> per request [outcome equals the reference run; every listener counted like the reference's]
+//!   -> per request [outcome equals the reference run; every listener counted, per event kind, like the
+//!      reference's]
+//! mode 4: [4; n; layer ids; nlisteners; panic mask; nreq; (req; okind; oval)*]
+//!   -> per request the four integers of mode 0, then for every layer position (outermost first), every
+//!      listener and every event kind 0..5 the number of invocations
 //!
 //! Every layer sits directly under a `tower::util::MapErr` that folds the layer's error type back
 //! into the common error `E` (pass-through variant: depth + 1; anything the layer made up itself:
@@ -32,7 +62,7 @@
 //! forward poll_ready/call to the very instance they hold.
 use futures::future::BoxFuture;
 use futures::FutureExt;
-use std::collections::{HashMap, VecDeque};
+use std::collections::{HashMap, HashSet, VecDeque};
 use std::fmt;
 use std::panic::{catch_unwind, AssertUnwindSafe};
 use std::sync::atomic::{AtomicBool, AtomicU64, Ordering};
@@ -97,33 +127,49 @@ where
 }
 
 // ---------------------------------------------------------------------------
-// listeners (mode 2)
+// listeners (modes 2 and 4)
+/// event kinds per layer (the order of the registration methods / enum variants in `wrap`)
+const NK: usize = 6;
+
 #[derive(Clone)]
 struct Lst {
-    counts: Arc<Vec<AtomicU64>>,
+    /// counts[listener][event kind]
+    counts: Arc<Vec<Vec<AtomicU64>>>,
     mask: i128,
 }
 
 impl Lst {
     fn new(n: usize, mask: i128) -> Self {
-        Lst { counts: Arc::new((0..n).map(|_| AtomicU64::new(0)).collect()), mask }
+        Lst { counts: Arc::new((0..n).map(|_| (0..NK).map(|_| AtomicU64::new(0)).collect()).collect()), mask }
     }
     fn n(&self) -> usize {
         self.counts.len()
     }
-    /// listener i: counts the event, then panics if bit i of the mask is set
-    fn h(&self, i: usize) -> impl Fn() + Send + Sync + Clone + 'static {
+    /// listener i, registered for event kind `kind`: counts the event, then panics if bit i of the
+    /// mask is set
+    fn h(&self, i: usize, kind: usize) -> impl Fn() + Send + Sync + Clone + 'static {
         let c = self.counts.clone();
         let p = (self.mask >> i) & 1 == 1;
         move || {
-            c[i].fetch_add(1, Ordering::SeqCst);
+            c[i][kind].fetch_add(1, Ordering::SeqCst);
+            if p {
+                panic!("listener {} panics", i);
+            }
+        }
+    }
+    /// listener i for layers with ONE registration method and an event enum: `kind_of` picks the kind
+    fn hk(&self, i: usize) -> impl Fn(usize) + Send + Sync + Clone + 'static {
+        let c = self.counts.clone();
+        let p = (self.mask >> i) & 1 == 1;
+        move |kind: usize| {
+            c[i][kind.min(NK - 1)].fetch_add(1, Ordering::SeqCst);
             if p {
                 panic!("listener {} panics", i);
             }
         }
     }
     fn snapshot(&self) -> Vec<u64> {
-        self.counts.iter().map(|c| c.load(Ordering::SeqCst)).collect()
+        self.counts.iter().flat_map(|r| r.iter().map(|c| c.load(Ordering::SeqCst))).collect()
     }
 }
 
@@ -149,19 +195,18 @@ impl Hooks {
 struct Cfg {
     mode: i128,
     k: usize,
-    lst: Option<Lst>,
     keys: Arc<AtomicU64>,
     hooks: Hooks,
 }
 
 impl Cfg {
-    fn new(mode: i128, k: usize, lst: Option<Lst>) -> Self {
-        Cfg { mode, k, lst, keys: Arc::new(AtomicU64::new(0)), hooks: Hooks::default() }
+    fn new(mode: i128, k: usize) -> Self {
+        Cfg { mode, k, keys: Arc::new(AtomicU64::new(0)), hooks: Hooks::default() }
     }
 }
 
 fn has_listeners(id: i128) -> bool {
-    matches!(id, 0 | 1 | 2 | 3 | 4 | 5 | 6 | 7 | 12 | 13 | 14 | 15)
+    matches!(id, 0 | 1 | 2 | 3 | 4 | 5 | 6 | 7 | 8 | 12 | 13 | 14 | 15 | 20 | 21 | 22)
 }
 
 /// breaker variants that start Open and whose open period has to elapse before the first request
@@ -171,17 +216,24 @@ fn pre_tripped(id: i128) -> bool {
 
 type RErr = <ReconnectService<Bx> as Service<i128>>::Error;
 
-/// wrap `inner` in real layer `id`
-fn wrap(id: i128, inner: Bx, c: &Cfg) -> Bx {
+/// wrap `inner` in real layer `id`; `lst`: the listeners to register on this layer (modes 2 and 4)
+fn wrap(id: i128, inner: Bx, c: &Cfg, lst: Option<&Lst>) -> Bx {
     let m2 = c.mode == 2;
-    let nl = c.lst.as_ref().map(|l| l.n()).unwrap_or(0);
-    let lst = c.lst.clone();
-    let h = move |i: usize| lst.as_ref().unwrap().h(i);
+    let nl = lst.map(|l| l.n()).unwrap_or(0);
+    let lst = lst.cloned();
+    let lst2 = lst.clone();
+    let h = move |i: usize, kind: usize| lst.as_ref().unwrap().h(i, kind);
+    let hk = move |i: usize| lst2.as_ref().unwrap().hk(i);
     match id {
-        0 => {
-            let mut b = BulkheadLayer::builder().max_concurrent_calls(4).name("c20");
+        0 | 21 => {
+            let mut b = BulkheadLayer::builder().name("c20");
+            b = if id == 21 {
+                b.max_concurrent_calls(1).max_wait_duration(Duration::from_secs(1))
+            } else {
+                b.max_concurrent_calls(4)
+            };
             for i in 0..nl {
-                let (h1, h2, h3, h4) = (h(i), h(i), h(i), h(i));
+                let (h1, h2, h3, h4) = (h(i, 0), h(i, 1), h(i, 2), h(i, 3));
                 b = b
                     .on_call_permitted(move |_| h1())
                     .on_call_rejected(move |_| h2())
@@ -193,13 +245,17 @@ fn wrap(id: i128, inner: Bx, c: &Cfg) -> Bx {
                 BulkheadServiceError::Bulkhead(_) => made(0, 1),
             }))
         }
-        1 => {
-            let mut b = RateLimiterLayer::builder()
-                .limit_for_period(if m2 { 2 } else { 1000 })
-                .refresh_period(Duration::from_secs(1))
-                .timeout_duration(Duration::from_millis(0));
+        1 | 22 => {
+            let mut b = RateLimiterLayer::builder();
+            b = if id == 22 {
+                b.limit_for_period(1).refresh_period(Duration::from_millis(10)).timeout_duration(Duration::from_millis(30))
+            } else {
+                b.limit_for_period(if m2 { 2 } else { 1000 })
+                    .refresh_period(Duration::from_secs(1))
+                    .timeout_duration(Duration::from_millis(0))
+            };
             for i in 0..nl {
-                let (h1, h2, h3) = (h(i), h(i), h(i));
+                let (h1, h2, h3) = (h(i, 0), h(i, 1), h(i, 2));
                 b = b
                     .on_permit_acquired(move |_| h1())
                     .on_permit_rejected(move |_| h2())
@@ -218,7 +274,7 @@ fn wrap(id: i128, inner: Bx, c: &Cfg) -> Bx {
                 .wait_duration_in_open(Duration::from_millis(5))
                 .permitted_calls_in_half_open(1);
             for i in 0..nl {
-                let (h1, h2, h3, h4, h5, h6) = (h(i), h(i), h(i), h(i), h(i), h(i));
+                let (h1, h2, h3, h4, h5, h6) = (h(i, 0), h(i, 1), h(i, 2), h(i, 3), h(i, 4), h(i, 5));
                 b = b
                     .on_state_transition(move |_, _| h1())
                     .on_call_permitted(move |_| h2())
@@ -266,12 +322,12 @@ fn wrap(id: i128, inner: Bx, c: &Cfg) -> Bx {
         }
         3 | 15 => {
             let mut b = RetryLayer::<i128, E>::builder()
-                .max_attempts(if c.mode == 1 { c.k + 1 } else { 3 })
+                .max_attempts(if c.mode == 1 || c.mode == 3 { c.k + 1 } else { 3 })
                 // variant 15: retries without any backoff (Duration::ZERO)
                 .fixed_backoff(if id == 15 { Duration::ZERO } else { Duration::from_millis(1) })
                 .retry_on(|e: &E| e.kind == TRANSIENT);
             for i in 0..nl {
-                let (h1, h2, h3, h4, h5) = (h(i), h(i), h(i), h(i), h(i));
+                let (h1, h2, h3, h4, h5) = (h(i, 0), h(i, 1), h(i, 2), h(i, 3), h(i, 4));
                 b = b
                     .on_retry(move |_, _| h1())
                     .on_success(move |_| h2())
@@ -287,7 +343,7 @@ fn wrap(id: i128, inner: Bx, c: &Cfg) -> Bx {
                 .timeout_duration(if m2 { Duration::from_millis(20) } else { Duration::from_secs(10) })
                 .cancel_running_future(id == 4);
             for i in 0..nl {
-                let (h1, h2, h3) = (h(i), h(i), h(i));
+                let (h1, h2, h3) = (h(i, 0), h(i, 1), h(i, 2));
                 b = b.on_success(move |_| h1()).on_error(move |_| h2()).on_timeout(move || h3());
             }
             bx(MapErr::new(b.build().layer(inner), |e: TimeLimiterError<E>| match e {
@@ -308,7 +364,7 @@ fn wrap(id: i128, inner: Bx, c: &Cfg) -> Bx {
                 },
             );
             for i in 0..nl {
-                let (h1, h2, h3) = (h(i), h(i), h(i));
+                let (h1, h2, h3) = (h(i, 0), h(i, 1), h(i, 2));
                 b = b.on_hit(move || h1()).on_miss(move || h2()).on_eviction(move || h3());
             }
             bx(MapErr::new(b.build().layer(inner), |e: CacheError<E>| match e {
@@ -321,24 +377,42 @@ fn wrap(id: i128, inner: Bx, c: &Cfg) -> Bx {
                 b = b.handle(|_e: &E| false);
             }
             for i in 0..nl {
-                let h1 = h(i);
-                b = b.on_event(move |_ev: &FallbackEvent| h1());
+                let h1 = hk(i);
+                b = b.on_event(move |ev: &FallbackEvent| {
+                    h1(match ev {
+                        FallbackEvent::Success { .. } => 0,
+                        FallbackEvent::FailedAttempt { .. } => 1,
+                        FallbackEvent::Applied { .. } => 2,
+                        FallbackEvent::Failed { .. } => 3,
+                        FallbackEvent::Skipped { .. } => 4,
+                    })
+                });
             }
             bx(MapErr::new(b.build().layer(inner), |e: FallbackError<E>| match e {
                 FallbackError::Inner(x) => pass(x),
                 FallbackError::FallbackFailed(_) => made(6, 1),
             }))
         }
-        7 => {
+        7 | 20 => {
             let mut b = HedgeLayer::builder().name("c20");
-            b = match c.mode {
-                1 => b.no_delay().max_hedged_attempts(c.k + 1),
-                2 => b.delay(Duration::from_millis(10)).max_hedged_attempts(2),
+            b = match (c.mode, id) {
+                (1 | 3, 7) => b.no_delay().max_hedged_attempts(c.k + 1),
+                // latency mode: one hedge per millisecond while the primary is still running
+                (1 | 3, _) => b.delay(Duration::from_millis(1)).max_hedged_attempts(c.k + 1),
+                (2, _) => b.delay(Duration::from_millis(10)).max_hedged_attempts(2),
                 _ => b.delay(Duration::from_secs(10)).max_hedged_attempts(2),
             };
             for i in 0..nl {
-                let h1 = h(i);
-                b = b.on_event(FnListener::new(move |_ev: &HedgeEvent| h1()));
+                let h1 = hk(i);
+                b = b.on_event(FnListener::new(move |ev: &HedgeEvent| {
+                    h1(match ev {
+                        HedgeEvent::PrimaryStarted { .. } => 0,
+                        HedgeEvent::HedgeStarted { .. } => 1,
+                        HedgeEvent::PrimarySucceeded { .. } => 2,
+                        HedgeEvent::HedgeSucceeded { .. } => 3,
+                        HedgeEvent::AllFailed { .. } => 4,
+                    })
+                }));
             }
             bx(MapErr::new(b.build().layer(inner), |e: HedgeError<E>| match e {
                 HedgeError::Inner(x) => pass(x),
@@ -346,12 +420,22 @@ fn wrap(id: i128, inner: Bx, c: &Cfg) -> Bx {
             }))
         }
         8 => {
-            let cfg = ReconnectConfig::builder()
+            let mut b = ReconnectConfig::builder()
                 .policy(ReconnectPolicy::fixed(Duration::from_millis(1)))
-                .max_attempts(if c.mode == 1 { c.k as u32 + 1 } else { 3 })
+                .max_attempts(if c.mode == 1 || c.mode == 3 { c.k as u32 + 1 } else { 3 })
                 .retry_on_reconnect(true)
-                .reconnect_predicate(|e: &dyn std::error::Error| e.to_string().starts_with("E kind=1 "))
-                .build();
+                .reconnect_predicate(|e: &dyn std::error::Error| e.to_string().starts_with("E kind=1 "));
+            // the crate's `tracing` feature: ONE callback per kind. Listener 0 is on_state_change
+            // (event kind 0), listener 1 is on_reconnect (event kind 1); further listeners are not registered
+            if nl >= 1 {
+                let h0 = h(0, 0);
+                b = b.on_state_change(move |_, _| h0());
+            }
+            if nl >= 2 {
+                let h1 = h(1, 1);
+                b = b.on_reconnect(move |_| h1());
+            }
+            let cfg = b.build();
             bx(MapErr::new(ReconnectLayer::new(cfg).layer(inner), |e: RErr| match e {
                 RErr::ServiceError(x) => pass(x),
                 RErr::ConnectionFailed(_) => made(8, 1),
@@ -359,9 +443,13 @@ fn wrap(id: i128, inner: Bx, c: &Cfg) -> Bx {
                 RErr::MaxAttemptsExceeded { .. } => made(8, 3),
             }))
         }
-        9 => {
-            let layer = AdaptiveLimiterLayer::new(Aimd::builder().initial_limit(10).build());
-            bx(MapErr::new(layer.layer(inner), |e: AdaptiveError<E>| match e {
+        9 | 23 => {
+            let a = if id == 23 {
+                Aimd::builder().initial_limit(1).min_limit(1).max_limit(1).build()
+            } else {
+                Aimd::builder().initial_limit(10).build()
+            };
+            bx(MapErr::new(AdaptiveLimiterLayer::new(a).layer(inner), |e: AdaptiveError<E>| match e {
                 AdaptiveError::Service(x) => pass(x),
                 AdaptiveError::LimitReached => made(9, 1),
             }))
@@ -385,7 +473,7 @@ fn wrap(id: i128, inner: Bx, c: &Cfg) -> Bx {
         _ => {
             let mut b = ChaosLayer::builder().name("c20");
             for i in 0..nl {
-                let (h1, h2, h3) = (h(i), h(i), h(i));
+                let (h1, h2, h3) = (h(i, 0), h(i, 1), h(i, 2));
                 b = b
                     .on_error_injected(move || h1())
                     .on_latency_injected(move |_| h2())
@@ -402,25 +490,78 @@ fn wrap(id: i128, inner: Bx, c: &Cfg) -> Bx {
     }
 }
 
-fn stack(ids: &[i128], bottom: Bx, c: &Cfg) -> Bx {
+/// `lsts`: one listener set per layer position (outermost first), or none at all
+fn stack(ids: &[i128], bottom: Bx, c: &Cfg, lsts: &[Lst]) -> Bx {
     let mut svc = bottom;
-    for id in ids.iter().rev() {
-        svc = wrap(*id, svc, c);
+    for (p, id) in ids.iter().enumerate().rev() {
+        let l = if has_listeners(*id) { lsts.get(p) } else { None };
+        svc = wrap(*id, svc, c, l);
     }
     svc
 }
 
 // ---------------------------------------------------------------------------
-// the strict, contract-checking wrapped service (mode 1)
+// the strict, contract-checking wrapped service (modes 1 and 3)
 struct StrictState {
-    oracle: VecDeque<i128>,
-    /// [1, inst, r] poll, [2, inst, ok] call
-    log: Vec<[i128; 3]>,
+    /// shared oracle: the answers to the coming polls, in order (mode 1)
+    shared: VecDeque<i128>,
+    /// per-instance oracle (mode 3): instance number c in order of first use answers its i-th poll
+    /// with per_inst[c][i]
+    per_inst: Option<Vec<Vec<i128>>>,
+    /// instances in order of first use (poll or call): the log names instances by their position here
+    seen: Vec<usize>,
+    pcnt: HashMap<usize, usize>,
+    /// [1, inst, r, 0] poll, [2, inst, was-ready, request] call
+    log: Vec<[i128; 4]>,
     ready: Vec<bool>,
     violations: i128,
     /// attempts 1..=kfail of every request fail with a transient error
     kfail: usize,
     attempts: HashMap<i128, usize>,
+    /// every call takes this long (virtual ms)
+    slow_ms: u64,
+    /// requests whose calls do not complete before the script releases them
+    held: HashSet<i128>,
+    wakers: Vec<Waker>,
+}
+
+impl StrictState {
+    fn new(kfail: usize, slow_ms: u64) -> Self {
+        StrictState {
+            shared: VecDeque::new(),
+            per_inst: None,
+            seen: Vec::new(),
+            pcnt: HashMap::new(),
+            log: Vec::new(),
+            ready: vec![false],
+            violations: 0,
+            kfail,
+            attempts: HashMap::new(),
+            slow_ms,
+            held: HashSet::new(),
+            wakers: Vec::new(),
+        }
+    }
+    fn cidx(&mut self, id: usize) -> usize {
+        match self.seen.iter().position(|x| *x == id) {
+            Some(i) => i,
+            None => {
+                self.seen.push(id);
+                self.seen.len() - 1
+            }
+        }
+    }
+    fn release(&mut self, req: Option<i128>) {
+        match req {
+            Some(r) => {
+                self.held.remove(&r);
+            }
+            None => self.held.clear(),
+        }
+        for w in self.wakers.drain(..) {
+            w.wake();
+        }
+    }
 }
 
 struct Strict {
@@ -440,24 +581,34 @@ impl Clone for Strict {
 impl Service<i128> for Strict {
     type Response = i128;
     type Error = E;
-    type Future = std::future::Ready<Result<i128, E>>;
+    type Future = BoxFuture<'static, Result<i128, E>>;
     fn poll_ready(&mut self, cx: &mut Context<'_>) -> Poll<Result<(), E>> {
         let mut st = self.sh.lock().unwrap();
-        let r = st.oracle.pop_front().unwrap_or(0);
         let id = self.id;
+        let c = st.cidx(id);
+        let nth = {
+            let e = st.pcnt.entry(id).or_insert(0);
+            *e += 1;
+            *e - 1
+        };
+        let shared = st.shared.pop_front().unwrap_or(0);
+        let r = match &st.per_inst {
+            Some(p) => p.get(c).and_then(|v| v.get(nth)).copied().unwrap_or(0),
+            None => shared,
+        };
         match r {
             0 => {
                 st.ready[id] = true;
-                st.log.push([1, id as i128, 0]);
+                st.log.push([1, c as i128, 0, 0]);
                 Poll::Ready(Ok(()))
             }
             1 => {
-                st.log.push([1, id as i128, 1]);
+                st.log.push([1, c as i128, 1, 0]);
                 cx.waker().wake_by_ref();
                 Poll::Pending
             }
             _ => {
-                st.log.push([1, id as i128, 2]);
+                st.log.push([1, c as i128, 2, 0]);
                 Poll::Ready(Err(E { kind: READY, val: -2, depth: 0 }))
             }
         }
@@ -465,22 +616,37 @@ impl Service<i128> for Strict {
     fn call(&mut self, req: i128) -> Self::Future {
         let mut st = self.sh.lock().unwrap();
         let id = self.id;
+        let c = st.cidx(id);
         let ok = st.ready[id];
         if !ok {
             st.violations += 1;
         }
         st.ready[id] = false;
-        st.log.push([2, id as i128, ok as i128]);
+        st.log.push([2, c as i128, ok as i128, req]);
         let a = {
             let e = st.attempts.entry(req).or_insert(0);
             *e += 1;
             *e
         };
-        if a <= st.kfail {
-            std::future::ready(Err(E { kind: TRANSIENT, val: -1, depth: 0 }))
-        } else {
-            std::future::ready(Ok(req * 10))
-        }
+        let res = if a <= st.kfail { Err(E { kind: TRANSIENT, val: -1, depth: 0 }) } else { Ok(req * 10) };
+        let slow = st.slow_ms;
+        let sh = self.sh.clone();
+        Box::pin(async move {
+            if slow > 0 {
+                tokio::time::sleep(Duration::from_millis(slow)).await;
+            }
+            futures::future::poll_fn(|cx| {
+                let mut st = sh.lock().unwrap();
+                if st.held.contains(&req) {
+                    st.wakers.push(cx.waker().clone());
+                    Poll::Pending
+                } else {
+                    Poll::Ready(())
+                }
+            })
+            .await;
+            res
+        })
     }
 }
 
@@ -613,6 +779,68 @@ fn ids_of(s: &[i128]) -> (usize, Vec<i128>) {
     (n, (0..n).map(|i| zn(s, 2 + i)).collect())
 }
 
+/// the strict service's failure schedule and speed for a stack.
+/// Hedged attempts all succeed (hedge runs them in parallel). Otherwise every call of a request fails
+/// except the last one the retrying layers can make: with m retry / reconnect layers of k further
+/// attempts each, the first (k + 1)^m - 1 calls fail (m = 1: the first k), so that every such layer
+/// makes exactly k further attempts each time it is called.
+/// (a pre-tripped breaker needs its half-open trial call to succeed: with no retrying layer in the
+/// stack nothing fails)
+fn strict_for(ids: &[i128], k: usize) -> StrictState {
+    let m = ids.iter().filter(|i| matches!(**i, 3 | 8 | 15)).count() as u32;
+    let hedge = ids.iter().any(|i| matches!(*i, 7 | 20));
+    let kfail = if hedge || (ids.iter().any(|i| pre_tripped(*i)) && m == 0) {
+        0
+    } else {
+        (k + 1).saturating_pow(m).min(4096) - 1
+    };
+    // hedge in latency mode: calls slow enough for every hedge to fire
+    let slow_ms = if ids.contains(&20) { 10 } else { 0 };
+    StrictState::new(kfail, slow_ms)
+}
+
+/// outcome code of a request whose request value was `req` through `n` layers
+fn code_of(out: &Outcome, req: i128, n: usize) -> i128 {
+    match out {
+        Outcome::Ok(v) => {
+            if *v == req * 10 {
+                0
+            } else {
+                6
+            }
+        }
+        Outcome::Err(e) => {
+            if e.kind == READY {
+                if e.depth as usize == n {
+                    2
+                } else {
+                    5
+                }
+            } else {
+                6
+            }
+        }
+        Outcome::PollErr(e) => {
+            if e.kind == READY && e.depth as usize == n {
+                1
+            } else {
+                4
+            }
+        }
+        Outcome::NeverReady => 3,
+        Outcome::Panic => 7,
+        Outcome::Hang => 9,
+    }
+}
+
+fn finish_trace(tr: &mut Vec<i128>, sh: &Arc<Mutex<StrictState>>) {
+    let st = sh.lock().unwrap();
+    for e in st.log.iter() {
+        tr.extend(e.iter().copied());
+    }
+    tr.push(st.violations);
+}
+
 fn run_protocol(s: &[i128]) -> Vec<i128> {
     let (n, ids) = ids_of(s);
     let k = zn(s, 2 + n).clamp(0, 6) as usize;
@@ -620,72 +848,251 @@ fn run_protocol(s: &[i128]) -> Vec<i128> {
     let oracle: VecDeque<i128> = s.iter().skip(4 + n).copied().collect();
     let rt = paused_rt();
     rt.block_on(async move {
-        // hedged attempts all succeed (hedge runs them in parallel); for retry / reconnect the
-        // first k attempts of every request fail
-        // (a pre-tripped breaker needs its half-open trial call to succeed: with no retrying layer
-        // in the stack nothing fails)
-        let retrying = ids.iter().any(|i| matches!(*i, 3 | 8 | 15));
-        let kfail = if ids.contains(&7) || (ids.iter().any(|i| pre_tripped(*i)) && !retrying) { 0 } else { k };
-        let sh = Arc::new(Mutex::new(StrictState {
-            oracle,
-            log: Vec::new(),
-            ready: vec![false],
-            violations: 0,
-            kfail,
-            attempts: HashMap::new(),
-        }));
-        let cfg = Cfg::new(1, k, None);
-        let mut svc = stack(&ids, bx(Strict { sh: sh.clone(), id: 0 }), &cfg);
+        let mut st0 = strict_for(&ids, k);
+        st0.shared = oracle;
+        let sh = Arc::new(Mutex::new(st0));
+        let cfg = Cfg::new(1, k);
+        let mut svc = stack(&ids, bx(Strict { sh: sh.clone(), id: 0 }), &cfg, &[]);
         if ids.iter().any(|i| pre_tripped(*i)) {
             advance_ms(6).await; // past wait_duration_in_open
         }
         let mut tr = Vec::new();
         for j in 1..=nreq {
-            let code = match request(&mut svc, j, 8, &cfg.hooks).await {
-                Outcome::Ok(_) => 0,
-                Outcome::Err(e) => {
-                    if e.kind == READY {
-                        2
-                    } else {
-                        0
-                    }
-                }
-                Outcome::PollErr(_) => 1,
-                Outcome::NeverReady => 3,
-                Outcome::Panic => 7,
-                Outcome::Hang => 9,
-            };
-            tr.push(code);
+            let out = request(&mut svc, j, 8, &cfg.hooks).await;
+            tr.push(code_of(&out, j, n));
             settle().await;
         }
-        let st = sh.lock().unwrap();
-        let mut seen: Vec<i128> = Vec::new();
-        for [kind, inst, v] in st.log.iter().copied() {
-            let idx = match seen.iter().position(|x| *x == inst) {
-                Some(i) => i,
-                None => {
-                    seen.push(inst);
-                    seen.len() - 1
-                }
-            };
-            tr.extend([kind, idx as i128, v]);
-        }
-        tr.push(st.violations);
+        finish_trace(&mut tr, &sh);
         tr
     })
 }
 
-fn run_transparent(s: &[i128]) -> Vec<i128> {
+// ---------------------------------------------------------------------------
+// mode 3: client programs
+type CallFut = Manual<Result<i128, E>>;
+
+fn outcome_of(m: &mut CallFut) -> Outcome {
+    if m.panicked {
+        return Outcome::Panic;
+    }
+    match m.done.take() {
+        Some(Ok(v)) => Outcome::Ok(v),
+        Some(Err(e)) => Outcome::Err(e),
+        None => Outcome::Hang,
+    }
+}
+
+/// poll the future while it makes progress; when it is stuck let up to `budget_ms` of virtual time
+/// pass. None: still in flight.
+async fn drive(m: &mut CallFut, budget_ms: u32) -> Option<Outcome> {
+    if !m.alive() {
+        return None;
+    }
+    let mut left = budget_ms;
+    let mut polls = 0u32;
+    loop {
+        if m.poll() {
+            break;
+        }
+        polls += 1;
+        if polls > 5000 {
+            return None;
+        }
+        settle().await;
+        if m.woken() {
+            continue;
+        }
+        if left == 0 {
+            return None;
+        }
+        left -= 1;
+        advance_ms(1).await;
+    }
+    // let detached tasks (hedges, executor / non-cancelling time limiter tasks) finish
+    settle().await;
+    Some(outcome_of(m))
+}
+
+/// virtual time a call may take inside one operation: retry / reconnect backoff (1 ms each), the
+/// rate limiter's next window (10 ms), the slow strict service under a latency-mode hedge (10 ms);
+/// far below the time limiter's 10 s and the gated bulkhead's max_wait_duration of 1 s
+const OP_BUDGET_MS: u32 = 12;
+
+fn run_program(s: &[i128]) -> Vec<i128> {
     let (n, ids) = ids_of(s);
-    let inner_kind = zn(s, 2 + n);
-    let nreq = zn(s, 3 + n).clamp(0, 32) as usize;
+    let k = zn(s, 2 + n).clamp(0, 6) as usize;
+    let nops = zn(s, 3 + n).clamp(0, 64) as usize;
+    let ops: Vec<(i128, i128, i128)> =
+        (0..nops).map(|i| (zn(s, 4 + n + 3 * i), zn(s, 5 + n + 3 * i), zn(s, 6 + n + 3 * i))).collect();
+    let mut per_inst: Vec<Vec<i128>> = Vec::new();
+    let mut cur: Vec<i128> = Vec::new();
+    for x in s.iter().skip(4 + n + 3 * nops) {
+        if *x == -1 {
+            per_inst.push(std::mem::take(&mut cur));
+        } else {
+            cur.push(*x);
+        }
+    }
+    if !cur.is_empty() {
+        per_inst.push(cur);
+    }
+    let rt = paused_rt();
+    rt.block_on(async move {
+        let mut st0 = strict_for(&ids, k);
+        st0.per_inst = Some(per_inst);
+        let sh = Arc::new(Mutex::new(st0));
+        let cfg = Cfg::new(3, k);
+        let top = stack(&ids, bx(Strict { sh: sh.clone(), id: 0 }), &cfg, &[]);
+        if ids.iter().any(|i| pre_tripped(*i)) {
+            advance_ms(6).await;
+        }
+        let mut handles: Vec<Bx> = vec![top];
+        let mut hready: Vec<bool> = vec![false];
+        // per issued request: its future while in flight, its outcome once known
+        let mut futs: Vec<CallFut> = Vec::new();
+        let mut outs: Vec<Option<Outcome>> = Vec::new();
+        let mut tr = Vec::new();
+        for (op, a, b) in ops {
+            let h = a as usize;
+            let known = a >= 0 && h < handles.len();
+            let code = match op {
+                0 if known => {
+                    let flag = Arc::new(Flag(AtomicBool::new(false)));
+                    let w = Waker::from(flag.clone());
+                    let mut code = 3;
+                    for _ in 0..8 {
+                        flag.0.store(false, Ordering::SeqCst);
+                        let mut cx = Context::from_waker(&w);
+                        match catch_unwind(AssertUnwindSafe(|| handles[h].poll_ready(&mut cx))) {
+                            Err(_) => {
+                                code = 7;
+                                break;
+                            }
+                            Ok(Poll::Ready(Ok(()))) => {
+                                code = 0;
+                                break;
+                            }
+                            Ok(Poll::Ready(Err(e))) => {
+                                code = code_of(&Outcome::PollErr(e), 0, n);
+                                break;
+                            }
+                            Ok(Poll::Pending) => {
+                                settle().await;
+                                if !flag.0.load(Ordering::SeqCst) {
+                                    advance_ms(1).await;
+                                }
+                            }
+                        }
+                    }
+                    hready[h] = code == 0;
+                    code
+                }
+                1 | 5 if known && hready[h] => {
+                    let req = futs.len() as i128 + 1;
+                    hready[h] = false;
+                    if op == 1 && b == 1 {
+                        sh.lock().unwrap().held.insert(req);
+                    }
+                    match catch_unwind(AssertUnwindSafe(|| handles[h].call(req))) {
+                        Ok(f) => {
+                            let mut m = Manual::new(f);
+                            let o = if op == 1 { drive(&mut m, OP_BUDGET_MS).await } else { None };
+                            futs.push(m);
+                            outs.push(o);
+                        }
+                        Err(_) => {
+                            futs.push(Manual::new(async { Err(made(99, 9)) }));
+                            outs.push(Some(Outcome::Panic));
+                        }
+                    }
+                    0
+                }
+                2 if known => {
+                    let c = handles[h].clone();
+                    handles.push(c);
+                    hready.push(false);
+                    0
+                }
+                3 => {
+                    sh.lock().unwrap().release(Some(a));
+                    settle().await;
+                    for j in 0..futs.len() {
+                        if outs[j].is_none() && futs[j].woken() {
+                            outs[j] = drive(&mut futs[j], OP_BUDGET_MS).await;
+                        }
+                    }
+                    // whoever queued behind the released request
+                    for j in 0..futs.len() {
+                        if outs[j].is_none() && futs[j].woken() {
+                            outs[j] = drive(&mut futs[j], OP_BUDGET_MS).await;
+                        }
+                    }
+                    0
+                }
+                4 if known => {
+                    let flag = Arc::new(Flag(AtomicBool::new(false)));
+                    let w = Waker::from(flag.clone());
+                    let mut cx = Context::from_waker(&w);
+                    match catch_unwind(AssertUnwindSafe(|| handles[h].poll_ready(&mut cx))) {
+                        Err(_) => 7,
+                        Ok(Poll::Pending) => 3,
+                        Ok(Poll::Ready(Ok(()))) => 0,
+                        Ok(Poll::Ready(Err(_))) => 1,
+                    }
+                }
+                6 => {
+                    let j = a as usize;
+                    if a >= 1 && j <= futs.len() && outs[j - 1].is_none() {
+                        outs[j - 1] = drive(&mut futs[j - 1], OP_BUDGET_MS).await;
+                    }
+                    0
+                }
+                0 | 1 | 2 | 4 | 5 => 8,
+                _ => 0,
+            };
+            tr.push(code);
+            settle().await;
+            // futures that were woken meanwhile (a permit was handed over, a task finished)
+            for j in 0..futs.len() {
+                if outs[j].is_none() && futs[j].woken() {
+                    outs[j] = drive(&mut futs[j], 0).await;
+                }
+            }
+        }
+        // the end of the script: everything is released and driven to completion, oldest first
+        sh.lock().unwrap().release(None);
+        settle().await;
+        for j in 0..futs.len() {
+            if outs[j].is_none() {
+                outs[j] = Some(drive(&mut futs[j], 2000).await.unwrap_or(Outcome::Hang));
+            }
+        }
+        for (j, o) in outs.iter().enumerate() {
+            tr.push(code_of(o.as_ref().unwrap(), j as i128 + 1, n));
+        }
+        finish_trace(&mut tr, &sh);
+        tr
+    })
+}
+
+// ---------------------------------------------------------------------------
+/// modes 0 and 4: a stack in its non-triggering configuration over the scripted service
+fn run_transparent(s: &[i128], with_listeners: bool) -> Vec<i128> {
+    let (n, ids) = ids_of(s);
+    let (ik, nl, mask, base) = if with_listeners {
+        (0, zn(s, 2 + n).clamp(0, 4) as usize, zn(s, 3 + n), 4 + n)
+    } else {
+        (zn(s, 2 + n), 0, 0, 3 + n)
+    };
+    let mask = mask & ((1 << nl) - 1);
+    let nreq = zn(s, base).clamp(0, 32) as usize;
     let reqs: Vec<(i128, i128, i128)> =
-        (0..nreq).map(|i| (zn(s, 4 + n + 3 * i), zn(s, 5 + n + 3 * i), zn(s, 6 + n + 3 * i))).collect();
+        (0..nreq).map(|i| (zn(s, base + 1 + 3 * i), zn(s, base + 2 + 3 * i), zn(s, base + 3 + 3 * i))).collect();
     let rt = paused_rt();
     rt.block_on(async move {
         let st = Arc::new(Mutex::new(ScriptState::default()));
         let scripted = Scripted(st.clone());
-        let bottom: Bx = match inner_kind {
+        let bottom: Bx = match ik {
             1 => bx(MapErr::new(tower::buffer::Buffer::new(scripted, 4), |e: tower::BoxError| {
                 match e.downcast::<E>() {
                     Ok(x) => *x,
@@ -695,8 +1102,9 @@ fn run_transparent(s: &[i128]) -> Vec<i128> {
             2 => bx(tower::limit::ConcurrencyLimit::new(scripted, 2)),
             _ => bx(scripted),
         };
-        let cfg = Cfg::new(0, 0, None);
-        let mut svc = stack(&ids, bottom, &cfg);
+        let cfg = Cfg::new(if with_listeners { 4 } else { 0 }, 0);
+        let lsts: Vec<Lst> = if with_listeners { (0..n).map(|_| Lst::new(nl, mask)).collect() } else { Vec::new() };
+        let mut svc = stack(&ids, bottom, &cfg, &lsts);
         settle().await;
         if ids.iter().any(|i| pre_tripped(*i)) {
             advance_ms(6).await; // past wait_duration_in_open
@@ -728,6 +1136,16 @@ fn run_transparent(s: &[i128]) -> Vec<i128> {
             let g = st.lock().unwrap();
             tr.extend([g.calls.len() as i128, g.calls.first().copied().unwrap_or(0), kind, payload]);
         }
+        for (p, id) in ids.iter().enumerate() {
+            if !with_listeners {
+                break;
+            }
+            if has_listeners(*id) {
+                tr.extend(lsts[p].snapshot().iter().map(|c| *c as i128));
+            } else {
+                tr.extend((0..nl * NK).map(|_| 0));
+            }
+        }
         tr
     })
 }
@@ -739,8 +1157,8 @@ fn listener_run(id: i128, nl: usize, mask: i128, okinds: &[i128]) -> Vec<(Outcom
     rt.block_on(async move {
         let st = Arc::new(Mutex::new(ScriptState::default()));
         let lst = Lst::new(nl, mask);
-        let cfg = Cfg::new(2, 0, Some(lst.clone()));
-        let mut svc = wrap(id, bx(Scripted(st.clone())), &cfg);
+        let cfg = Cfg::new(2, 0);
+        let mut svc = wrap(id, bx(Scripted(st.clone())), &cfg, Some(&lst));
         let mut out = Vec::new();
         for (j, ok) in okinds.iter().enumerate() {
             let j = j as i128 + 1;
@@ -765,8 +1183,7 @@ fn run_listeners(s: &[i128]) -> Vec<i128> {
     let nreq = zn(s, 4).clamp(0, 32) as usize;
     let okinds: Vec<i128> = (0..nreq).map(|i| zn(s, 5 + i)).collect();
     if !has_listeners(id) {
-        // reconnect (callbacks only with the `tracing` feature), adaptive, coalesce, executor:
-        // no listener API, nothing to observe
+        // adaptive, coalesce, executor: no listener API, nothing to observe
         return (0..nreq).flat_map(|_| [1, 1]).collect();
     }
     let reference = listener_run(id, nl, 0, &okinds);
@@ -787,7 +1204,9 @@ fn run_listeners(s: &[i128]) -> Vec<i128> {
 fn run(s: &[i128]) -> Vec<i128> {
     match zn(s, 0) {
         1 => run_protocol(s),
-        0 => run_transparent(s),
+        3 => run_program(s),
+        0 => run_transparent(s, false),
+        4 => run_transparent(s, true),
         _ => run_listeners(s),
     }
 }
